@@ -10,6 +10,7 @@ import (
 	"github.com/golang/protobuf/proto"
 
 	pb "github.com/xuperchain/xupercore/bcs/ledger/xledger/xldgpb"
+	"github.com/xuperchain/xupercore/lib/verifhook"
 	"github.com/xuperchain/xupercore/protos"
 )
 
@@ -32,6 +33,7 @@ func (uv *UtxoVM) SelectUtxosBySize(fromAddr string, needLock, excludeUnconfirme
 	defer it.Release()
 
 	for it.Next() {
+		verifhook.Yield("selectbysize.item")
 		key := append([]byte{}, it.Key()...)
 		utxoItem := new(UtxoItem)
 		// 反序列化utxoItem
